@@ -7,7 +7,8 @@ ROOT = os.path.dirname(os.path.dirname(os.path.abspath(__file__)))
 
 def write_evidence(pid, ev):
     os.makedirs(os.path.join(ROOT, "evidence"), exist_ok=True)
-    json.dump(ev, open(os.path.join(ROOT, "evidence", pid + ".json"), "w"), indent=1)
+    if not os.environ.get("VERIF_NO_EVIDENCE"):      # (development runs against a scratch worktree leave the evidence alone)
+        json.dump(ev, open(os.path.join(ROOT, "evidence", pid + ".json"), "w"), indent=1)
 
 
 def run_go_test(V, binary, test, env, timeout=1800):
